@@ -9,7 +9,7 @@ props=$(python3 -c "import json;print(' '.join(c['property_id'] for c in json.lo
 echo "| refactoring | applies | checks that fired (false alarms) |" > refactors/MATRIX.md; echo "|---|---|---|" >> refactors/MATRIX.md
 for f in refactors/*/refactor*.diff; do
   id=$(echo $f | sed 's|refactors/||; s|/refactor|-|; s|.diff||')
-  [ -n "${1:-}" ] && [ "$1" != "$id" ] && continue
+  [ -n "${1:-}" ] && [[ "$id" != "$1" && "$id" != "$1"-* ]] && continue
   git -C /repo checkout -q -- .
   if ! git -C /repo apply /verif/$f 2>/dev/null; then echo "| $id | NO | - |" >> refactors/MATRIX.md; echo "$id: does not apply"; continue; fi
   VERIF_OUT=$out ./run_check.sh all quick > $out/$id.log 2>&1
